@@ -284,12 +284,21 @@ class IntrospectablePass(object):
         if isinstance(obj, (ast.Class, ast.Interface)):
             methods = dict((method.name, method) for method in obj.methods)
             for prop in obj.properties:
+                if not prop.introspectable:
+                    continue
                 setter = methods.get(prop.setter)
-                if setter is not None and (setter.skip or not setter.introspectable):
-                    prop.setter = None
+                if setter is not None:
+                    if setter.skip or not setter.introspectable:
+                        prop.setter = None
+                    elif setter.set_property is None:
+                        # lost with another, non-introspectable property
+                        setter.set_property = prop.name
                 getter = methods.get(prop.getter)
-                if getter is not None and (getter.skip or not getter.introspectable):
-                    prop.getter = None
+                if getter is not None:
+                    if getter.skip or not getter.introspectable:
+                        prop.getter = None
+                    elif getter.get_property is None:
+                        getter.get_property = prop.name
         return True
 
     def _introspectable_pass3(self, obj, stack):
